@@ -159,54 +159,6 @@ Proof.
   intros E. inversion E; subst. exact Ha.
 Qed.
 
-Lemma info_change_ok d a acc f : acc_ok d a (fst (p_info_change acc f)).
-Proof.
-  unfold p_info_change, acc_ok. destruct acc as [oi st]. simpl. repeat split; try discriminate;
-    intros H; destruct st, (had_no_nonce_and_code oi); discriminate.
-Qed.
-
-Lemma increments_ext d bs : forall p q p' ts,
-  db_wf d -> ext d p q -> loaded_ok d p -> p_increments d p bs = (p', ts) ->
-  exists q', p_increments d q bs = (q', ts) /\ ext d p' q' /\ loaded_ok d p'.
-Proof.
-  induction bs as [|[a inc] bs IH]; intros p q p' ts Hwf He Hok Hp; cbn [p_increments] in *.
-  - inversion Hp; subst. eauto.
-  - destruct (inc =? 0); [eauto|].
-    destruct (p_load d p a) as [p1 acc] eqn:El.
-    destruct (load_ext d p q a p1 acc (db_wf_wf0 d Hwf) He El) as (q1 & Hq1 & He1 & Ep1 & Eq1 & Hok1).
-    rewrite Hq1. unfold p_increment in *.
-    destruct (p_info_change acc _) as [acc' t] eqn:Eic.
-    destruct (p_increments d (p_put p1 a acc') bs) as [p2 ts2] eqn:Er.
-    inversion Hp; subst p' ts; clear Hp.
-    assert (Hacc' : acc' = fst (p_info_change acc (fun i => set_balance i (sat_add (balance i) inc)))) by now rewrite Eic.
-    destruct (IH (p_put p1 a acc') (p_put q1 a acc') p2 ts2 Hwf) as (q2 & Hq2 & He2 & Hok2); auto.
-    + eapply put_ext; eauto. intros k. subst acc'. unfold p_info_change. simpl.
-      apply base_changed; [exact Hwf|]. apply (Hok1 Hok a acc Ep1).
-    + apply put_ok; [now apply Hok1|]. subst acc'. apply info_change_ok.
-    + exists q2. rewrite Hq2. auto.
-Qed.
-
-Lemma drains_ext d ads : forall p q p' bals ts,
-  db_wf d -> ext d p q -> loaded_ok d p -> p_drains d p ads = Some (p', bals, ts) ->
-  exists q', p_drains d q ads = Some (q', bals, ts) /\ ext d p' q' /\ loaded_ok d p'.
-Proof.
-  induction ads as [|a ads IH]; intros p q p' bals ts Hwf He Hok Hp; cbn [p_drains] in *.
-  - inversion Hp; subst. eauto.
-  - destruct (p_load d p a) as [p1 acc] eqn:El.
-    destruct (load_ext d p q a p1 acc (db_wf_wf0 d Hwf) He El) as (q1 & Hq1 & He1 & Ep1 & Eq1 & Hok1).
-    rewrite Hq1. unfold p_drain in *.
-    destruct (_ <=? U128_MAX); [|discriminate].
-    destruct (p_info_change acc _) as [acc' t] eqn:Eic.
-    destruct (p_drains d (p_put p1 a acc') ads) as [[[p2 bals2] ts2]|] eqn:Er; [|discriminate].
-    inversion Hp; subst p' bals ts; clear Hp.
-    assert (Hacc' : acc' = fst (p_info_change acc (fun i => set_balance i 0))) by now rewrite Eic.
-    destruct (IH (p_put p1 a acc') (p_put q1 a acc') p2 bals2 ts2 Hwf) as (q2 & Hq2 & He2 & Hok2); auto.
-    + eapply put_ext; eauto. intros k. subst acc'. unfold p_info_change. simpl.
-      apply base_changed; [exact Hwf|]. apply (Hok1 Hok a acc Ep1).
-    + apply put_ok; [now apply Hok1|]. subst acc'. apply info_change_ok.
-    + exists q2. rewrite Hq2. auto.
-Qed.
-
 (* ---------------------------------------------------------------- commits *)
 (* states with the same observations *)
 Definition peqv (p1 p2 : pstate) : Prop :=
@@ -372,6 +324,73 @@ Proof.
     exists q2. rewrite Hq1, Hq2. auto.
 Qed.
 
+(* ---------------------------------------------------------------- increments and drains *)
+Lemma basic_ext d p q a p1 oi :
+  db_wf0 d -> ext d p q -> loaded_ok d p -> p_basic d p a = (p1, oi) ->
+  exists q1, p_basic d q a = (q1, oi) /\ ext d p1 q1 /\ loaded_ok d p1.
+Proof.
+  intros Hwf0 He Hok Hp. unfold p_basic in *. destruct (p_load d p a) as [p2 acc] eqn:El.
+  inversion Hp; subst p1 oi; clear Hp.
+  destruct (load_ext d p q a p2 acc Hwf0 He El) as (q1 & Hq1 & He1 & _ & _ & Hok1).
+  rewrite Hq1. eauto.
+Qed.
+
+Lemma touch_all_ext d bs : forall p q p' es,
+  db_wf0 d -> ext d p q -> loaded_ok d p -> p_touch_all d p bs = (p', es) ->
+  exists q', p_touch_all d q bs = (q', es) /\ ext d p' q' /\ loaded_ok d p' /\
+             Forall (fun ae => code_ok_e d (snd ae)) es.
+Proof.
+  induction bs as [|[a f] bs IH]; intros p q p' es Hwf0 He Hok Hp; cbn [p_touch_all] in *.
+  - inversion Hp; subst. eauto.
+  - destruct (p_basic d p a) as [p1 oi] eqn:Eb.
+    destruct (basic_ext d p q a p1 oi Hwf0 He Hok Eb) as (q1 & Hq1 & He1 & Hok1). rewrite Hq1.
+    destruct (p_touch_all d p1 bs) as [p2 es2] eqn:Et. inversion Hp; subst p' es; clear Hp.
+    destruct (IH p1 q1 p2 es2 Hwf0 He1 Hok1 Et) as (q2 & Hq2 & He2 & Hok2 & Hc). rewrite Hq2.
+    exists q2. split; [reflexivity|]. split; [exact He2|]. split; [exact Hok2|].
+    constructor; [apply touched_code_ok|exact Hc].
+Qed.
+
+Lemma increments_ext d bs p q p' ts :
+  db_wf d -> ext d p q -> loaded_ok d p -> p_increments d p bs = Some (p', ts) ->
+  exists q', p_increments d q bs = Some (q', ts) /\ ext d p' q' /\ loaded_ok d p'.
+Proof.
+  intros Hwf He Hok Hp. unfold p_increments in *.
+  destruct (p_touch_all d p _) as [p1 es] eqn:Et.
+  destruct (touch_all_ext d _ p q p1 es (db_wf_wf0 d Hwf) He Hok Et) as (q1 & Hq1 & He1 & Hok1 & Hc).
+  rewrite Hq1. exact (apply_evm_state_ext d es p1 q1 p' ts Hwf He1 Hok1 Hc Hp).
+Qed.
+
+Lemma drain_all_ext d ads : forall p q p' bals es,
+  db_wf0 d -> ext d p q -> loaded_ok d p -> p_drain_all d p ads = Some (p', bals, es) ->
+  exists q', p_drain_all d q ads = Some (q', bals, es) /\ ext d p' q' /\ loaded_ok d p' /\
+             Forall (fun ae => code_ok_e d (snd ae)) es.
+Proof.
+  induction ads as [|a ads IH]; intros p q p' bals es Hwf0 He Hok Hp; cbn [p_drain_all] in *.
+  - inversion Hp; subst. eauto.
+  - destruct (p_basic d p a) as [p1 oi] eqn:Eb.
+    destruct (basic_ext d p q a p1 oi Hwf0 He Hok Eb) as (q1 & Hq1 & He1 & Hok1). rewrite Hq1.
+    destruct (_ <=? U128_MAX); [|discriminate].
+    destruct (p_drain_all d p1 ads) as [[[p2 bals2] es2]|] eqn:Et; [|discriminate].
+    inversion Hp; subst p' bals es; clear Hp.
+    destruct (IH p1 q1 p2 bals2 es2 Hwf0 He1 Hok1 Et) as (q2 & Hq2 & He2 & Hok2 & Hc). rewrite Hq2.
+    exists q2. split; [reflexivity|]. split; [exact He2|]. split; [exact Hok2|].
+    constructor; [apply touched_code_ok|exact Hc].
+Qed.
+
+Lemma drains_ext d ads p q p' bals ts :
+  db_wf d -> ext d p q -> loaded_ok d p -> p_drains d p ads = Some (p', bals, ts) ->
+  exists q', p_drains d q ads = Some (q', bals, ts) /\ ext d p' q' /\ loaded_ok d p'.
+Proof.
+  intros Hwf He Hok Hp. unfold p_drains in *.
+  destruct (p_drain_all d p ads) as [[[p1 bals1] es]|] eqn:Et; [|discriminate].
+  destruct (drain_all_ext d ads p q p1 bals1 es (db_wf_wf0 d Hwf) He Hok Et) as (q1 & Hq1 & He1 & Hok1 & Hc).
+  rewrite Hq1.
+  destruct (p_apply_evm_state p1 es) as [[p2 ts2]|] eqn:Ea; [|discriminate].
+  inversion Hp; subst p' bals ts; clear Hp.
+  destruct (apply_evm_state_ext d es p1 q1 p2 ts2 Hwf He1 Hok1 Hc Ea) as (q2 & Hq2 & He2 & Hok2).
+  rewrite Hq2. eauto.
+Qed.
+
 (* ---------------------------------------------------------------- every operation *)
 Lemma with_ts_ext d p q ts : ext d p q -> ext d (p_with_ts p ts) (p_with_ts q ts).
 Proof. intros [HeA HeS HeC HeT]. apply mkExt; auto. Qed.
@@ -388,7 +407,8 @@ Proof.
     inversion Hp; subst p' x; clear Hp.
     destruct (apply_evm_state_ext d es p q p1 ts Hwf He Hok Hcode E) as (q1 & Hq1 & He1 & Hok1).
     rewrite Hq1. eexists. split; [reflexivity|]. rewrite (E_ts _ _ _ He1). split; [now apply with_ts_ext|exact Hok1].
-  - destruct (p_increments d p bs) as [p1 ts] eqn:E. inversion Hp; subst p' x; clear Hp.
+  - destruct (p_increments d p bs) as [[p1 ts]|] eqn:E; [|inversion Hp; subst; contradiction].
+    inversion Hp; subst p' x; clear Hp.
     destruct (increments_ext d bs p q p1 ts Hwf He Hok E) as (q1 & Hq1 & He1 & Hok1).
     rewrite Hq1. eexists. split; [reflexivity|]. rewrite (E_ts _ _ _ He1). split; [now apply with_ts_ext|exact Hok1].
   - destruct (p_drains d p ads) as [[[p1 bals] ts]|] eqn:E; [|inversion Hp; subst; contradiction].
